@@ -708,7 +708,7 @@ def r8_shared_tokenizer(ctx):
     """a conformant document is only accepted if its segments reach the validator intact: tokenizer loop exits, buffer
     conservation and the CR/LF strip set are the obligations of C01.R3/R5"""
     from . import c01
-    for fn in (c01.r3_tokenizer_exits, c01.r5_strip_set):
+    for fn in (c01.r3_tokenizer_exits, c01.r5_strip_set, c01.r11_reader_iteration):
         for o in fn(ctx):
             yield o
 
@@ -781,6 +781,15 @@ def r13_shared_length_atoms(ctx):
         yield o
 
 
+def r15_shared_envelope_counters(ctx):
+    """a conformant document may hold several interchanges, groups and sets: the reader's counters restart at each header
+    (groups at ISA, sets at GS, segments at ST) and are compared with the trailer's own count, or the second, correct,
+    envelope of a file draws a count error.  C04.R1 (shared)."""
+    from . import c04
+    for o in c04.r1_wiring(ctx):
+        yield o
+
+
 RULES = [
     Rule('C02.R14', 'segment_if.is_match decided by constant propagation over node shapes x code lists x values', r14_is_match_semantics, floor=1),
     Rule('C02.R13', 'shared with C15.R3: length atoms measure the right string (numeric types without sign and point)', r13_shared_length_atoms, floor=8),
@@ -795,5 +804,6 @@ RULES = [
     Rule('C02.R12', 'repeat limits: an error exactly when the count exceeds the limit (constant propagation)', r12_repeat_limits, floor=1),
     Rule('C02.R10', '_is_loop_match: a wrapper loop matches iff any child loop matches (constant propagation, recursive)', r10_wrapper_loops, floor=1),
     Rule('C02.R9', 'shared with C16.R13: same-position segments get distinct counter paths (loader suffix code interpreted over the maps)', r9_shared_path_suffix, floor=100),
+    Rule('C02.R15', 'shared with C04.R1: envelope counters restart at their header and are compared at their trailer', r15_shared_envelope_counters, floor=37),
     Rule('C02.R8', 'shared with C01.R3/R5: no segment is damaged at a buffer boundary', r8_shared_tokenizer, floor=6),
 ]
